@@ -9,6 +9,8 @@ those three facts is probed here on both in-memory importers by running the real
 * idless-fresh      - the entry point is called twice without a graph id (two documents; for files: once through two paths,
                       once through one path rewritten in between): two non-empty ids, different from each other and from the id
                       of a graph already in the store, each graph holding the nodes of its own document, the older graph intact;
+                      likewise for documents that NAME a graph on every node (the saved form of a graph that is in the store
+                      and has been edited since, loaded twice; a document naming a graph that is not in the store, twice);
 * named-target      - called with graph_id: the handle is for that id and the graph of that id holds the document's nodes;
 * document-target   - direct entry points: a document naming graph A is loaded, the SAME path (string entry point: the same
                       call site) is then handed a document naming graph B: the second call comes back as B, B holds B's nodes and
@@ -95,6 +97,22 @@ def probe_idless(flavour, ep, d):
         i1, i2 = getattr(h1, "graph_id", None), getattr(h2, "graph_id", None)
         ok = ok and isinstance(i1, str) and isinstance(i2, str) and bool(i1) and bool(i2) and len({i1, i2, "named"}) == 3
         ok = ok and _holds(h1, n1) and _holds(h2, n2) and _holds(h0, n0)
+    # documents as they are SAVED name a graph on every node: the saved form of a graph that is in the store, loaded twice
+    # (two paths / one path), and a document naming a graph that is not - a call without a graph id still gets an id of its own
+    for fmt, paths in (("graphml", ("s1.graphml", "s2.graphml")), ("json", ("s.graph", "s.graph"))):
+        imp = _importer(flavour)
+        t0, n0 = _doc("model", 2, fmt, gid="named")
+        h0 = imp.import_graph_from_string_direct(graph_string=t0)
+        h0.add_node(node_id="later", label="NetworkNode", props={"Name": "later"})
+        t3, n3 = _doc("elsewhere", 3, fmt, gid="not-in-store")
+        h1 = _call(imp, ep, t0, os.path.join(d, paths[0]))
+        h2 = _call(imp, ep, t0, os.path.join(d, paths[1]))
+        h3 = _call(imp, ep, t3, os.path.join(d, paths[1]))
+        h4 = _call(imp, ep, t3, os.path.join(d, paths[0]))
+        ids = [getattr(h, "graph_id", None) for h in (h1, h2, h3, h4)]
+        ok = ok and all(isinstance(i, str) and bool(i) for i in ids) and len(set(ids) | {"named"}) == 5
+        ok = ok and getattr(h0, "graph_id", None) == "named" and _holds(h0, n0 + ["later"])
+        ok = ok and _holds(h1, n0) and _holds(h2, n0) and _holds(h3, n3) and _holds(h4, n3)
     return ok
 
 
